@@ -10,6 +10,7 @@ def split_selfies(selfies: str):
     yields(typed(item, 'str') and (item == "." or (len(item) >= 2 and item.endswith("]"))),
            tag="C14:each-item-is-a-dot-or-ends-with-a-closing-bracket")
     yields(item == "." or item[1:len(item) - 1].find("]") == -1, tag="C14:symbol-runs-to-the-first-closing-bracket")
+    yields(len(item) <= len(selfies) and implies(ascii_str(selfies), ascii_str(item)), tag="C14:items-are-pieces-of-the-input")
     ensures(implies(selfies.find("[") == -1, yielded_count() == 0), tag="C14:no-bracket-no-symbols")
     # for every str (well formed or not) on which it does not raise: the items concatenate to the input from its first '['
     ensures(implies(selfies.find("[") >= 0, yielded_concat() == selfies[selfies.find("["):]),
